@@ -9,8 +9,8 @@ import (
 	"strings"
 	"time"
 
-	"github.com/notaryproject/notation-core-go/signature"
 	revresult "github.com/notaryproject/notation-core-go/revocation/result"
+	"github.com/notaryproject/notation-core-go/signature"
 	"github.com/notaryproject/notation-go"
 	"github.com/opencontainers/go-digest"
 	ocispec "github.com/opencontainers/image-spec/specs-go/v1"
@@ -51,16 +51,27 @@ func (c05) Gen(r *rand.Rand, tier string, idx int) *core.Plan {
 		if r.IntN(3) == 0 {
 			res = int64(r.IntN(4))
 		}
-		p.Ops = append(p.Ops, core.Op{Kind: "cert", I: []int64{res, int64(r.IntN(3))}})
+		// results of this certificate in the later rounds: mostly what it was, sometimes revoked / unknown / good later on
+		later := func() int64 {
+			if r.IntN(3) == 0 {
+				return int64(r.IntN(4))
+			}
+			return res
+		}
+		p.Ops = append(p.Ops, core.Op{Kind: "cert", I: []int64{res, int64(r.IntN(3)), later(), later()}})
 	}
 	w["answer"] = int64(core.Pick(r, 0, 0, 0, 0, 0, 1, 2, 3)) // 0 vector 1 validator error 2 nil,nil 3 short
+	// the same long-lived verifier checks the same chain again while the world moves on
+	w["rounds"] = int64(core.Pick(r, 1, 1, 2, 3))
+	w["answer1"] = int64(core.Pick(r, 0, 0, 0, 1, 2, 3))
+	w["answer2"] = int64(core.Pick(r, 0, 0, 0, 1, 2, 3))
 	w["short"] = int64(r.IntN(4))
 	w["legacy"] = int64(r.IntN(2))
 	w["action"] = int64(core.Pick(r, 0, 0, 1, 2)) // enforce log skip
 	w["scheme"] = int64(r.IntN(2))
 	w["format"] = int64(r.IntN(2))
 	if r.IntN(12) == 0 {
-		p.Faults = append(p.Faults, rt.Fault{Task: 0, Op: "revocation.validate", Nth: 0, Kind: "EIO"})
+		p.Faults = append(p.Faults, rt.Fault{Task: 0, Op: "revocation.validate", Nth: r.IntN(int(w["rounds"])), Kind: "EIO"})
 	}
 	return p
 }
@@ -98,34 +109,12 @@ func (l c05) Exec(env *core.Env) *core.Result {
 		}
 		rt.Sleep(90 * time.Second)
 		val := &world.ScriptedValidator{}
-		var vector []revresult.Result
 		for i, op := range p.Ops {
 			if i >= n {
 				break
 			}
-			vector = append(vector, c05Results[op.Int(0)%4])
 			val.Methods = append(val.Methods, c05Methods[op.Int(1)%3])
 		}
-		for len(vector) < n {
-			vector = append(vector, revresult.ResultOK)
-		}
-		val.Results = vector
-		answer := w["answer"]
-		switch answer {
-		case 1:
-			val.Err = errors.New("simulated: validator failed")
-		case 2:
-			val.Short = -1
-		case 3:
-			val.Short = int(w["short"]) % n
-			if val.Short == 0 {
-				val.Short = -1
-				if n > 1 {
-					val.Short = 1
-				}
-			}
-		}
-		injected := len(p.Faults) > 0
 		action := []string{"enforce", "log", "skip"}[w["action"]%3]
 		store := world.NewScriptedStore()
 		store.Put(storeType, "s", chain.Root().Cert)
@@ -134,118 +123,163 @@ func (l c05) Exec(env *core.Env) *core.Result {
 			res.Violate("HARNESS/verifier", "", "%v", err)
 			return
 		}
-		outcome, verr := v.Verify(ctx, desc, sig, notation.VerifierVerifyOptions{ArtifactReference: "registry.example/repo@" + desc.Digest.String(), SignatureMediaType: format})
-		var vs []string
-		for _, r := range vector {
-			vs = append(vs, r.String())
-		}
-		key := fmt.Sprintf("n=%d vector=%v answer=%d short=%d injected=%v legacy=%d action=%s scheme=%d", n, vs, answer, val.Short, injected, w["legacy"], action, w["scheme"])
-		sim.Abstract(fmt.Sprint(key, val.Methods, verr == nil))
-		allGood := true
-		anyRevoked := false
-		for _, r := range vector {
-			if r != revresult.ResultOK && r != revresult.ResultNonRevokable {
-				allGood = false
-			}
-			if r == revresult.ResultRevoked {
-				anyRevoked = true
-			}
-		}
-		faulty := answer != 0 || injected
-		res.Nontrivial = !allGood || faulty
-		res.Sample = map[string]any{"plan": p, "situation": key, "accepted": verr == nil}
-		if outcome == nil {
-			res.Violate("C05/no-outcome", key, "no outcome: %v", verr)
-			return
-		}
-		var rev *notation.ValidationResult
-		for _, r := range outcome.VerificationResults {
-			if string(r.Type) == "revocation" {
-				rev = r
-			}
-		}
-		if action == "skip" {
-			if len(val.Calls) > 0 || rev != nil {
-				res.Violate("C05/revocation-performed-despite-skip", key, "validator calls=%d, revocation result present=%v", len(val.Calls), rev != nil)
-			}
-			return
-		}
-		if rev == nil {
-			res.Violate("C05/no-revocation-result", key, "revocation is %s but no revocation result was reported (results %d, err %v)", action, len(outcome.VerificationResults), verr)
-			return
-		}
-		// the validator is consulted once, with the complete chain in order
-		if len(val.Calls) != 1 {
-			res.Violate("C05/validator-call-count", key, "the validator was consulted %d times", len(val.Calls))
-		} else {
-			call := val.Calls[0]
-			want := chain.X509()
-			okChain := len(call.CertChain) == len(want)
-			for i := 0; okChain && i < len(want); i++ {
-				okChain = bytes.Equal(call.CertChain[i].Raw, want[i].Raw)
-			}
-			if !okChain {
-				res.Violate("C05/validator-got-incomplete-chain", key, "the validator received %d certificates, the signature's chain has %d (or order differs)", len(call.CertChain), len(want))
-			}
-			if w["scheme"] == 1 {
-				if !call.AuthenticSigningTime.Equal(signedAt.Truncate(time.Second)) {
-					res.Violate("C05/authentic-signing-time-not-passed", key, "signing-authority signature: validator received signing time %v, signed at %v", call.AuthenticSigningTime, signedAt)
+		task := sim.Current()
+		round := func(k int) {
+			var vector []revresult.Result
+			for i, op := range p.Ops {
+				if i >= n {
+					break
 				}
-			} else if !call.AuthenticSigningTime.IsZero() {
-				res.Violate("C05/signing-time-passed-for-x509-scheme", key, "notary.x509 signature: validator received signing time %v", call.AuthenticSigningTime)
+				vector = append(vector, c05Results[op.Int([]int{0, 2, 3}[k])%4])
 			}
-			if (w["legacy"] == 1) != (val.Legacy == 1) {
-				res.Violate("HARNESS/interface", key, "legacy=%d but legacy calls=%d", w["legacy"], val.Legacy)
+			for len(vector) < n {
+				vector = append(vector, revresult.ResultOK)
 			}
-		}
-		// fail closed
-		if rev.Error == nil {
-			if faulty {
-				class := "C05/faulty-validator-answer-treated-as-ok"
-				if answer == 2 || answer == 3 {
-					class = "C05/mis-sized-validator-answer-treated-as-ok"
-				}
-				res.Violate(class, fmt.Sprintf("answer=%d short=%d n=%d", answer, val.Short, n), "the validator answered with a fault (%s) but the revocation result carries no error", key)
-			} else if !allGood {
-				res.Violate("C05/non-ok-certificate-treated-as-ok", key, "vector %v but the revocation result carries no error", vs)
-			}
-		} else {
-			msg := rev.Error.Error()
-			if !faulty && allGood {
-				res.Violate("C05/ok-chain-failed-revocation", key, "every certificate is OK / non-revokable but revocation failed: %v", rev.Error)
-			}
-			if !faulty && anyRevoked {
-				if !strings.Contains(msg, "revoked") {
-					res.Violate("C05/revoked-not-reported-as-revoked", key, "a certificate is revoked but the error does not say so: %v", rev.Error)
-				}
-				named := false
-				for i, r := range vector {
-					tok := fmt.Sprintf("tok%d", i)
-					if n > 1 && i == n-1 {
-						tok = fmt.Sprintf("tok%d", n-1)
-					}
-					has := strings.Contains(msg, "CN="+tok+",") || strings.Contains(msg, "CN="+tok+"\"") || strings.HasSuffix(msg, "CN="+tok)
-					if has && r == revresult.ResultRevoked {
-						named = true
-					}
-					if has && r != revresult.ResultRevoked {
-						res.Violate("C05/wrong-certificate-named-revoked", key, "the error names certificate %s which was reported %s: %v", tok, r, rev.Error)
+			val.Results, val.Err, val.Short, val.Calls, val.Legacy = vector, nil, 0, nil, 0
+			answer := w[[]string{"answer", "answer1", "answer2"}[k]]
+			switch answer {
+			case 1:
+				val.Err = errors.New("simulated: validator failed")
+			case 2:
+				val.Short = -1
+			case 3:
+				val.Short = int(w["short"]) % n
+				if val.Short == 0 {
+					val.Short = -1
+					if n > 1 {
+						val.Short = 1
 					}
 				}
-				if !named {
-					res.Violate("C05/no-revoked-certificate-named", key, "no revoked certificate is named in: %v", rev.Error)
+			}
+			faultsBefore := task.FaultsSeen
+			outcome, verr := v.Verify(ctx, desc, sig, notation.VerifierVerifyOptions{ArtifactReference: "registry.example/repo@" + desc.Digest.String(), SignatureMediaType: format})
+			injected := task.FaultsSeen != faultsBefore
+			var vs []string
+			for _, r := range vector {
+				vs = append(vs, r.String())
+			}
+			key := fmt.Sprintf("round=%d n=%d vector=%v answer=%d short=%d injected=%v legacy=%d action=%s scheme=%d", k, n, vs, answer, val.Short, injected, w["legacy"], action, w["scheme"])
+			sim.Abstract(fmt.Sprint(key, val.Methods, verr == nil))
+			allGood := true
+			anyRevoked := false
+			for _, r := range vector {
+				if r != revresult.ResultOK && r != revresult.ResultNonRevokable {
+					allGood = false
+				}
+				if r == revresult.ResultRevoked {
+					anyRevoked = true
 				}
 			}
-			if !faulty && !anyRevoked && !allGood && strings.Contains(msg, "is revoked") {
-				res.Violate("C05/unknown-reported-as-revoked", key, "no certificate is revoked but the error says revoked: %v", rev.Error)
+			faulty := answer != 0 || injected
+			res.Nontrivial = res.Nontrivial || !allGood || faulty || k > 0
+			res.Sample = map[string]any{"plan": p, "situation": key, "accepted": verr == nil}
+			if outcome == nil {
+				res.Violate("C05/no-outcome", key, "no outcome: %v", verr)
+				return
 			}
+			var rev *notation.ValidationResult
+			for _, r := range outcome.VerificationResults {
+				if string(r.Type) == "revocation" {
+					rev = r
+				}
+			}
+			if action == "skip" {
+				if len(val.Calls) > 0 || rev != nil {
+					res.Violate("C05/revocation-performed-despite-skip", key, "validator calls=%d, revocation result present=%v", len(val.Calls), rev != nil)
+				}
+				return
+			}
+			if rev == nil {
+				res.Violate("C05/no-revocation-result", key, "revocation is %s but no revocation result was reported (results %d, err %v)", action, len(outcome.VerificationResults), verr)
+				return
+			}
+			// the validator is consulted once, with the complete chain in order
+			if len(val.Calls) != 1 {
+				res.Violate("C05/validator-call-count", key, "the validator was consulted %d times", len(val.Calls))
+			} else {
+				call := val.Calls[0]
+				want := chain.X509()
+				okChain := len(call.CertChain) == len(want)
+				for i := 0; okChain && i < len(want); i++ {
+					okChain = bytes.Equal(call.CertChain[i].Raw, want[i].Raw)
+				}
+				if !okChain {
+					res.Violate("C05/validator-got-incomplete-chain", key, "the validator received %d certificates, the signature's chain has %d (or order differs)", len(call.CertChain), len(want))
+				}
+				if w["scheme"] == 1 {
+					if !call.AuthenticSigningTime.Equal(signedAt.Truncate(time.Second)) {
+						res.Violate("C05/authentic-signing-time-not-passed", key, "signing-authority signature: validator received signing time %v, signed at %v", call.AuthenticSigningTime, signedAt)
+					}
+				} else if !call.AuthenticSigningTime.IsZero() {
+					res.Violate("C05/signing-time-passed-for-x509-scheme", key, "notary.x509 signature: validator received signing time %v", call.AuthenticSigningTime)
+				}
+				if (w["legacy"] == 1) != (val.Legacy == 1) {
+					res.Violate("HARNESS/interface", key, "legacy=%d but legacy calls=%d", w["legacy"], val.Legacy)
+				}
+			}
+			// fail closed
+			if rev.Error == nil {
+				if faulty {
+					class := "C05/faulty-validator-answer-treated-as-ok"
+					if answer == 2 || answer == 3 {
+						class = "C05/mis-sized-validator-answer-treated-as-ok"
+					}
+					res.Violate(class, fmt.Sprintf("answer=%d short=%d n=%d", answer, val.Short, n), "the validator answered with a fault (%s) but the revocation result carries no error", key)
+				} else if !allGood {
+					res.Violate("C05/non-ok-certificate-treated-as-ok", key, "vector %v but the revocation result carries no error", vs)
+				}
+			} else {
+				msg := rev.Error.Error()
+				if !faulty && allGood {
+					res.Violate("C05/ok-chain-failed-revocation", key, "every certificate is OK / non-revokable but revocation failed: %v", rev.Error)
+				}
+				if !faulty && anyRevoked {
+					if !strings.Contains(msg, "revoked") {
+						res.Violate("C05/revoked-not-reported-as-revoked", key, "a certificate is revoked but the error does not say so: %v", rev.Error)
+					}
+					named := false
+					for i, r := range vector {
+						tok := fmt.Sprintf("tok%d", i)
+						if n > 1 && i == n-1 {
+							tok = fmt.Sprintf("tok%d", n-1)
+						}
+						has := strings.Contains(msg, "CN="+tok+",") || strings.Contains(msg, "CN="+tok+"\"") || strings.HasSuffix(msg, "CN="+tok)
+						if has && r == revresult.ResultRevoked {
+							named = true
+						}
+						if has && r != revresult.ResultRevoked {
+							res.Violate("C05/wrong-certificate-named-revoked", key, "the error names certificate %s which was reported %s: %v", tok, r, rev.Error)
+						}
+					}
+					if !named {
+						res.Violate("C05/no-revoked-certificate-named", key, "no revoked certificate is named in: %v", rev.Error)
+					}
+				}
+				if !faulty && !anyRevoked && !allGood && strings.Contains(msg, "is revoked") {
+					res.Violate("C05/unknown-reported-as-revoked", key, "no certificate is revoked but the error says revoked: %v", rev.Error)
+				}
+			}
+			// and the action decides
+			if action == "enforce" && rev.Error != nil && verr == nil {
+				res.Violate("C05/enforced-revocation-failure-accepted", key, "revocation failed under enforce but verification succeeded")
+			}
+			if action == "log" && verr != nil {
+				res.Violate("C05/logged-revocation-failure-rejected", key, "revocation is logged but verification failed: %v", verr)
+			}
+
 		}
-		// and the action decides
-		if action == "enforce" && rev.Error != nil && verr == nil {
-			res.Violate("C05/enforced-revocation-failure-accepted", key, "revocation failed under enforce but verification succeeded")
+		rounds := int(w["rounds"])
+		if rounds < 1 {
+			rounds = 1
 		}
-		if action == "log" && verr != nil {
-			res.Violate("C05/logged-revocation-failure-rejected", key, "revocation is logged but verification failed: %v", verr)
+		if rounds > 3 {
+			rounds = 3
+		}
+		for k := 0; k < rounds; k++ {
+			if k > 0 {
+				rt.Sleep(17 * time.Minute) // the revocation world moves on; the verifier object stays
+			}
+			round(k)
 		}
 	})
 	sim.Run()
